@@ -929,6 +929,21 @@ func runR78(c *core.Ctx) {
 					if i, ok := clPartIndex(ms.Len); !ok || i != 4 {
 						bad = append(bad, "the data block length is not word 4 of the command line")
 					}
+				} else if sl, ok := ssax.Unwrap(dv).(*ssa.Slice); ok && sl.High != nil && (sl.Low == nil || isConstZero(sl.Low)) {
+					// buf[:length] of a buffer allocated with the declared length plus a constant (data block and
+					// terminator read in one go)
+					ms, isMS := ssax.Unwrap(sl.X).(*ssa.MakeSlice)
+					if i, ok := clPartIndex(sl.High); !ok || i != 4 {
+						bad = append(bad, "the data block length is not word 4 of the command line")
+					} else if !isMS {
+						bad = append(bad, "Data is not a buffer sized by the command line")
+					} else {
+						ev := &ssax.SymEval{}
+						d := ev.Eval(ms.Len).Sub(ev.Eval(sl.High))
+						if !d.IsConst() || d.Const < 0 {
+							bad = append(bad, "the data buffer is not sized by word 4 of the command line (plus a constant)")
+						}
+					}
 				} else {
 					bad = append(bad, "Data is not a buffer sized by the command line")
 				}
